@@ -14,6 +14,16 @@ macro_rules! k_harness {
 }
 
 #[cfg(kani)]
+macro_rules! k_harness12 {
+    ($name:ident, $body:ident ( $($arg:expr),* )) => {
+        #[cfg(kani)]
+        #[kani::proof]
+        #[kani::unwind(12)]
+        fn $name() { $body($($arg),*); }
+    };
+}
+
+#[cfg(kani)]
 pub(crate) const LAT: i16 = 6;
 
 #[cfg(kani)]
@@ -327,3 +337,74 @@ fn c02_k_multilinestring_pos_finding_shared_endpoint() {
     assert!(mls.coordinate_position(&b) == CoordPos::Inside);
     assert!(mls.contains(&Point(b)));
 }
+
+// ---- LineString: Contains<Line> -------------------------------------------------------------
+/// oracle: the non-degenerate segment [c,d] is covered by the union of the segments of `pts`
+/// (interval union along the direction of cd; exact integer arithmetic)
+#[cfg(kani)]
+fn covered_by(c: spec::P, d: spec::P, pts: &[spec::P]) -> bool {
+    let dir = spec::P { x: d.x - c.x, y: d.y - c.y };
+    let len = dir.x * dir.x + dir.y * dir.y;
+    // parameter of a point on the carrier line
+    let t = |p: spec::P| (p.x - c.x) * dir.x + (p.y - c.y) * dir.y;
+    // intervals of the collinear, non-degenerate segments
+    let mut lo = [0 as spec::S; 8];
+    let mut hi = [0 as spec::S; 8];
+    let mut m = 0;
+    let mut i = 0;
+    while i + 1 < pts.len() {
+        let (a, b) = (pts[i], pts[i + 1]);
+        if spec::cross(c, d, a) == 0 && spec::cross(c, d, b) == 0 && a != b {
+            let (ta, tb) = (t(a), t(b));
+            lo[m] = if ta < tb { ta } else { tb };
+            hi[m] = if ta < tb { tb } else { ta };
+            m += 1;
+        }
+        i += 1;
+    }
+    // [0,len] is covered iff 0 is covered and every interval end e < len inside is continued by an interval with lo <= e < hi
+    let cov = |e: spec::S| { let mut k = 0; let mut ok = false; while k < m { if lo[k] <= e && e < hi[k] { ok = true; } k += 1; } ok };
+    if !cov(0) { return false; }
+    let mut k = 0;
+    let mut ok = true;
+    while k < m {
+        if hi[k] >= 0 && hi[k] < len && !cov(hi[k]) { ok = false; }
+        k += 1;
+    }
+    ok
+}
+
+#[cfg(kani)]
+fn body_ls_contains_line(n: usize, close: bool, lat: i16) {
+    let mut ls = lat_ring_i16(n, lat);
+    if close { let f = ls.0[0]; ls.0.push(f); }
+    let (c, d) = (lat_coord_i16(lat), lat_coord_i16(lat));
+    kani::assume(c != d);
+    let (pts, len) = to_pts(&ls);
+    let want = covered_by(sp(c), sp(d), &pts[..len]);
+    let line = Line::new(c, d);
+    assert!(ls.contains(&line) == want);
+    assert!(line.is_within(&ls) == want);
+    kani::cover!(want, "covered");
+}
+k_harness!(c02_k_ls_contains_line_open3, body_ls_contains_line(3, false, 4));
+
+/// ring-start invariance (C01/C02: the result does not depend on where a closed ring starts): the same closed
+/// ring written from vertex 0 and from vertex k contains the same segments
+#[cfg(kani)]
+fn body_ring_contains_line_rotation(n: usize, k: usize, lat: i16) {
+    let base = lat_ring_i16(n, lat);
+    let (c, d) = (lat_coord_i16(lat), lat_coord_i16(lat));
+    kani::assume(c != d);
+    // restrict to the coincidence class that matters: the query runs along the line y = c.y = d.y = first vertex' y
+    kani::assume(c.y == d.y && base.0[0].y == c.y);
+    let mut r0 = Vec::with_capacity(8);
+    let mut rk = Vec::with_capacity(8);
+    let mut i = 0;
+    while i <= n { r0.push(base.0[i % n]); rk.push(base.0[(i + k) % n]); i += 1; }
+    let (r0, rk) = (LineString(r0), LineString(rk));
+    let line = Line::new(c, d);
+    assert!(r0.contains(&line) == rk.contains(&line));
+}
+k_harness12!(c02_k_ring_contains_line_rot_5_1, body_ring_contains_line_rotation(5, 1, 3));
+k_harness12!(c02_k_ring_contains_line_rot_5_2, body_ring_contains_line_rotation(5, 2, 3));
